@@ -274,7 +274,10 @@ pub fn variant_form(i: usize, name: &str) -> String {
 }
 pub const N_VARIANT_FORMS: usize = 14;
 
-pub const GENERICS: [(&str, &str); 7] = [
+pub const GENERICS: [(&str, &str); 9] = [
+    // a where-clause without predicates is still a where-clause
+    ("<T>", " where"),
+    ("", " where"),
     ("<T, const N: usize, U: Send, 'a, X = u8>", ""),
     ("", " where u8: Copy"),
     ("", ""),
@@ -448,7 +451,15 @@ pub fn expectation(entry: &BodyEntry, src: &str) -> Option<Result<Val, Vec<Error
 fn expectation_inner(entry: &BodyEntry, src: &str) -> Option<Result<Val, Vec<Error>>> {
     let di: syn::DeriveInput = crate::run::parse_input(src).ok()?;
     Some(match entry.tr8 {
-        Trait::FromDeriveInput => exp_derive_input(&di, &entry.magic, &entry.flavor),
+        Trait::FromDeriveInput => {
+            use syn::spanned::Spanned;
+            let base = exp_derive_input(&di, &entry.magic, &entry.flavor);
+            match entry.flavor.as_str() {
+                "spanned" => base.map(|v| spanned(v, di.span())),
+                "original" => base.map(|v| with_original(v, &di)),
+                _ => base,
+            }
+        }
         Trait::FromField => {
             let f = match &di.data {
                 syn::Data::Struct(s) => s.fields.iter().next()?.clone(),
